@@ -8,15 +8,22 @@ export VERIF_ROOT="$PWD"
 ID=${1:?usage: run.sh <ID> <quick|thorough> | replay <path>}
 TIER=${2:-quick}
 mkdir -p bin tmp evidence replay
-cmp -s /repo/go.sum harness/go.sum || cp /repo/go.sum harness/go.sum
+# VERIF_REPO lets a background sweep run against a snapshot of the repository (vp run --with-repo); registered checks use /repo
+REPO=${VERIF_REPO:-/repo}
+export VERIF_REPO=$REPO
+cmp -s $REPO/go.sum harness/go.sum || cp $REPO/go.sum harness/go.sum
+MODFILE=""
+if [ "$REPO" != /repo ]; then
+  sed "s#=> /repo#=> $REPO#" harness/go.mod > tmp/go-$$.mod; cp harness/go.sum tmp/go-$$.sum; MODFILE="-modfile=$VERIF_ROOT/tmp/go-$$.mod"
+fi
 if [ "$ID" = replay ]; then tag=replay-$$; else tag=$ID-$TIER-$$; fi
 RACE=""
 if [ "$ID" = C20 ] || { [ "$ID" = replay ] && grep -q '"property": "C20"' "$TIER" 2>/dev/null; }; then RACE="-race"; fi
 # the monitor binary (links the library with the verif hooks on) and the CLI, both from /repo as it is now
-if ! (cd harness && go build -tags verif $RACE -o ../bin/vcheck-$tag ./cmd/vcheck) 2> tmp/build-$tag.log; then
+if ! (cd harness && go build $MODFILE -tags verif $RACE -o ../bin/vcheck-$tag ./cmd/vcheck) 2> tmp/build-$tag.log; then
   cat tmp/build-$tag.log; echo "BUILD-FAILED property=$ID (the monitor could not be built against /repo)"; rm -f tmp/build-$tag.log; exit 2
 fi
-if ! (cd /repo && go build -o "$VERIF_ROOT/bin/astisub-$tag" ./astisub) 2>> tmp/build-$tag.log; then
+if ! (cd $REPO && go build -o "$VERIF_ROOT/bin/astisub-$tag" ./astisub) 2>> tmp/build-$tag.log; then
   cat tmp/build-$tag.log; echo "BUILD-FAILED property=$ID (the CLI could not be built)"; rm -f tmp/build-$tag.log bin/vcheck-$tag; exit 2
 fi
 rm -f tmp/build-$tag.log
@@ -26,5 +33,5 @@ if [ "$ID" = replay ]; then
 else
   ./bin/vcheck-$tag run "$ID" "$TIER"; rc=$?
 fi
-rm -f bin/vcheck-$tag bin/astisub-$tag
+rm -f bin/vcheck-$tag bin/astisub-$tag tmp/go-$$.mod tmp/go-$$.sum
 exit $rc
